@@ -5,6 +5,7 @@
  * leak <=> counter vector after run 3 != vector after run 2.  ASan decides "freed while referenced". */
 #define VM_C06 1
 #define HNAME "h_c06"
+#include "c06_temp_cases.h"
 #include "h_c05.c"
 #include <malloc.h>
 
@@ -259,6 +260,16 @@ static int c06_share_main (int argc, char **argv) {
     /* aliasing: both operands of a binary operator / op-assign are the same array / mapping / string / buffer, through a local, another
      * variable, an array element, a mapping value, a global: += + -= - &= & |= | *= * (whatever the type supports), repeated, range */
     for (int vt = 0; vt < 4; vt++) for (int form = 0; form < 23; form++) add_share ("alias", "same-container-twice", 1, "operands", vt * 32 + form);
+    /* temporaries: the container operand of an index / range / member / sizeof / foreach operation is a literal, a call result, a sum
+     * or a call_other result (only the value stack refers to it); the value looked up is an array / mapping / string / buffer /
+     * funptr / class instance held only by that temporary; the result is used and kept in a global before it is dropped */
+    {
+      static char hkn[sizeof temp_cases / sizeof *temp_cases][64];
+      for (unsigned c = 0; c < sizeof temp_cases / sizeof *temp_cases; c++) {
+        snprintf (hkn[c], sizeof hkn[c], "%s:%s", temp_cases[c].src, temp_cases[c].op);
+        for (int vt = 0; vt < temp_cases[c].nvt; vt++) add_share ("temp", temp_cases[c].cont, 1, hkn[c], (int) c * 1024 + vt);
+      }
+    }
     /* call cache: refused call_other (static / private / protected / inherited / prototype / undefined) on a cold and a filled cache */
     for (int kd = 0; kd < 24; kd++) add_share ("refused", "function-name", 1, "apply-cache", kd);
   }
